@@ -55,7 +55,8 @@ package simpledb
 //@   modifies db.memStore
 
 //@ func (*DB).rotateWalAndFlushMemstore
-//@   props C01 C13 C02
+//@   props C01 C13 C02 C18
+//@   requires [C18:called-under-the-write-lock] lkW(db.rwLock)
 //@   requires db.wal != nil && db.memStore != nil
 //@   ensures [rotation-counted] walRot(db.wal) == old(walRot(db.wal)) + 1
 //@   ensures [no-record-logged] walCount(db.wal) == old(walCount(db.wal))
@@ -66,8 +67,11 @@ package simpledb
 //@   modifies walRot(db.wal), db.memStore
 
 //@ func (*DB).PutBytes
-//@   props C17 C02 C13 C01
+//@   props C17 C02 C13 C01 C18
 //@   replay db_rejected_calls
+//@   requires [C18:lock-free-at-entry] !lkW(db.rwLock)
+//@   ensures [C18:lock-released] !lkW(db.rwLock)
+//@   call 0 of Upsert: assert [C18:memstore-written-under-the-write-lock] lkW(db.rwLock)
 //@   requires db.rwLock != nil && db.wal != nil && db.memStore != nil && db.memStore.writeStore != nil && db.memStore.readStore != nil
 //@   ensures [C17:rejects-empty] len(keyBytes) == 0 || len(valBytes) == 0 ==> r0 == ErrEmptyKeyValue
 //@   ensures [C17:rejected-is-not-logged] len(keyBytes) == 0 || len(valBytes) == 0 ==> walCount(db.wal) == old(walCount(db.wal))
@@ -88,8 +92,11 @@ package simpledb
 //@   modifies walCount(db.wal), mst(old(db.memStore.writeStore), content(keyBytes)), mvl(old(db.memStore.writeStore), content(keyBytes)), walRot(db.wal), db.memStore
 
 //@ func (*DB).DeleteBytes
-//@   props C17 C02 C13 C01
+//@   props C17 C02 C13 C01 C18
 //@   replay db_rejected_calls
+//@   requires [C18:lock-free-at-entry] !lkW(db.rwLock)
+//@   ensures [C18:lock-released] !lkW(db.rwLock)
+//@   call 0 of Delete: assert [C18:memstore-written-under-the-write-lock] lkW(db.rwLock)
 //@   requires db.rwLock != nil && db.wal != nil && db.memStore != nil && db.memStore.writeStore != nil && db.memStore.readStore != nil
 //@   ensures [C17:not-open] !old(db.open) ==> r0 != nil && walCount(db.wal) == old(walCount(db.wal))
 //@   ensures [C17:closed] old(db.closed) ==> r0 != nil && walCount(db.wal) == old(walCount(db.wal))
@@ -147,6 +154,7 @@ package simpledb
 
 //@ func (*SSTableManager).candidateTablesForCompaction
 //@   props C06 C01
+//@   ensures [C18:read-lock-released] lkR(s.managerLock) == old(lkR(s.managerLock))
 //@   requires s.managerLock != nil
 //@   requires forall t :: 0 <= t && t < len(s.allSSTableReaders) ==> s.allSSTableReaders[t] != nil
 //@   exit [selection-gap-free] forall p, k, q :: 0 <= p && p < k && k < q && q < len(selectedForCompaction) && selectedForCompaction[p] && selectedForCompaction[q] ==> selectedForCompaction[k]
@@ -230,8 +238,11 @@ package simpledb
 //@   modifies slice[*]
 
 //@ func (*SSTableManager).reflectCompactionResult
-//@   props C06 C01
+//@   props C06 C01 C18
 //@   replay compaction_cycle
+//@   requires [C18:locks-free-at-entry] !lkW(s.databaseLock) && !lkW(s.managerLock) && s.databaseLock != s.managerLock
+//@   ensures [C18:locks-released] !lkW(s.databaseLock) && !lkW(s.managerLock)
+//@   call 0 of sync.RWMutex.Lock: assert [C18:database-lock-taken-before-the-manager-lock] !lkW(s.managerLock)
 //@   requires s.databaseLock != nil && s.managerLock != nil && m != nil
 //@   requires [list-in-age-order] readersSorted(s.allSSTableReaders) && readersNonNil(s.allSSTableReaders)
 //@   requires [names-are-base-names] fbase(m.ReplacementPath) == m.ReplacementPath
@@ -251,6 +262,9 @@ package simpledb
 
 //@ func (*DB).GetBytes
 //@   props C01 C18
+//@   ensures [C18:read-lock-released] lkR(db.rwLock) == old(lkR(db.rwLock))
+//@   call 0 of RWMemstore.Get: assert [C18:memstore-read-under-the-read-lock] lkR(db.rwLock) > 0
+//@   call 0 of SSTableReaderI.Get: assert [C18:tables-read-under-the-read-lock] lkR(db.rwLock) > 0
 //@   replay db_program_model
 //@   bounded db_program_model database vs. reference map: 60 (quick) / 600 (thorough) seeded random programs of 40 steps over 5 keys (put, overwrite, delete, get, forced rotation, compaction cycle, close + re-open) x option sets (memstore 64 B .. 1 MiB, compaction threshold 1..3, max size 1 KiB .. 1 MiB, ratio 0.1 .. 1, read / write buffers 64 B .. 64 KiB); every Get and the full state after every restart are compared
 //@   requires db.rwLock != nil && db.sstableManager != nil && db.sstableManager.managerLock != nil && db.memStore != nil &&
@@ -268,7 +282,8 @@ package simpledb
 //@   modifies nothing
 
 //@ func (*SSTableManager).currentSSTable
-//@   props C01
+//@   props C01 C18
+//@   ensures [C18:read-lock-released] lkR(s.managerLock) == old(lkR(s.managerLock))
 //@   requires s.managerLock != nil
 //@   ensures r0 == s.currentReader
 //@   modifies nothing
@@ -278,7 +293,9 @@ package simpledb
 // the new table is installed after that.
 
 //@ func (*SSTableManager).addReader
-//@   props C01 C02
+//@   props C01 C02 C18
+//@   requires [C18:lock-free-at-entry] !lkW(s.managerLock)
+//@   ensures [C18:lock-released] !lkW(s.managerLock)
 //@   requires s.managerLock != nil
 //@   ensures [C01:appended-as-the-newest-table] len(s.allSSTableReaders) == old(len(s.allSSTableReaders)) + 1 &&
 //@           s.allSSTableReaders[len(s.allSSTableReaders) - 1] == newReader
@@ -304,6 +321,10 @@ package simpledb
 // every replayed record counts (a log that holds only deletions is flushed as well).
 
 //@ func (*DB).replayAndSetupWriteAheadLog
+//@   assumed
+//@   // (assumed is the frame only: what the recovery of the log may change; the call and exit clauses are verified)
+//@   modifies db.wal, db.memStore, db.currentGeneration, db.sstableManager.allSSTableReaders, db.sstableManager.currentReader,
+//@            db.sstableManager.allSSTableReaders[*], mst(*), mvl(*), fresh(*)
 //@   props C10 C02 C13
 //@   replay crash_points
 //@   bounded crash_points process kill at file-system call boundaries (strace signal injection at the N-th write / pwrite64 / openat / rename* / unlink* / mkdir* / rmdir / ftruncate / fsync / fdatasync of a thread): a 16-operation workload (puts, overwrites, deletes, 2 compaction cycles, memstore rotations) x synchronous and asynchronous log x {real background flusher, sequential schedule on one locked thread = every call of the process}; every 9th call (quick) / every call (thorough); every 4th (5th) crash image additionally with the recovery killed once (twice); recovery killed at each unlink while it clears a log directory with three unflushed files; after each: Open succeeds and the reads equal the acknowledged prefix
@@ -371,7 +392,9 @@ package simpledb
 //@   modifies db.currentGeneration, db.sstableManager.allSSTableReaders, db.sstableManager.currentReader, db.sstableManager.allSSTableReaders[*]
 
 //@ func (*DB).Open
-//@   props C10 C19 C02
+//@   props C10 C19 C02 C18
+//@   requires [C18:lock-free-at-entry] !lkW(db.rwLock)
+//@   ensures [C18:lock-released] !lkW(db.rwLock)
 //@   requires db.rwLock != nil && db.memStore != nil && db.memStore.writeStore != nil && db.sstableManager != nil && db.sstableManager.managerLock != nil
 //@   exit [C10:recovery-steps-in-order] called(DB.reconstructSSTables, 0) ==> called(DB.repairCompactions, 0) && callres(DB.repairCompactions, 0, 0) == nil
 //@   exit [C10:log-replayed-after-the-tables-are-loaded] called(DB.replayAndSetupWriteAheadLog, 0) ==> called(DB.reconstructSSTables, 0) && callres(DB.reconstructSSTables, 0, 0) == nil
@@ -381,7 +404,9 @@ package simpledb
 //@        (called(DB.replayAndSetupWriteAheadLog, 0) && callres(DB.replayAndSetupWriteAheadLog, 0, 0) != nil) ==> r0 != nil
 
 //@ func (*DB).Close
-//@   props C19 C17
+//@   props C19 C17 C18
+//@   requires [C18:lock-free-at-entry] !lkW(db.rwLock)
+//@   ensures [C18:lock-released] !lkW(db.rwLock)
 //@   requires db.rwLock != nil && db.wal != nil && db.memStore != nil && db.sstableManager != nil && db.sstableManager.managerLock != nil &&
 //@            db.sstableManager.currentReader != nil
 //@   exit [C17,C19:not-open-or-closed-changes-nothing] !old(db.open) || old(db.closed) ==> r0 != nil && !called(WriteAheadLogI.Close, 0) && !called(SSTableReaderI.Close, 0) &&
@@ -391,3 +416,16 @@ package simpledb
 //@        (called(SSTableReaderI.Close, 0) && callres(SSTableReaderI.Close, 0, 0) != nil) ==> r0 != nil
 //@   call 0 of WriteAheadLogI.Close: assert [C19,C02:last-memstore-handed-over-before-the-log-is-closed] called(DB.rotateWalAndFlushMemstore, 0) &&
 //@        callres(DB.rotateWalAndFlushMemstore, 0, 0) == nil
+
+// ---------------------------------------------------------------------------------------------------
+// C18 / C01: the hand-over channel between a rotation and the flusher is unbuffered: a rotation returns only after the flusher
+// took the previous memstore over (and that memstore's table is installed before the flusher takes the next one), so at most
+// one rotated memstore is ever outside both the read store and the table stack.
+//@ func NewSimpleDB
+//@   assumed
+//@   props C18 C01
+//@   replay concurrent_db_race
+//@   bounded concurrent_db_race 6 goroutines x 250 (quick) / 2500 (thorough) random Put / Delete / Get steps on keys each goroutine owns, one handle, 300-byte memstore (constant rotation and flushing), compactor every 20 ms, synchronous and asynchronous log; every Get must return the goroutine's own last write; under the Go race detector
+//@   exit [C18,C01:flush-hand-over-is-unbuffered] r1 == nil ==> cap(r0.storeFlushChannel) == 0
+//@   ensures r1 == nil ==> r0 != nil
+//@   fresh r0
